@@ -237,6 +237,8 @@ where
             // `POLLING` flag is set; the `CLOSED` flag is cleared; the task
             // contains a live future.
 
+            #[cfg(feature = "verif-hooks")]
+            crate::verif_hooks::probe(crate::verif_hooks::site::TASK_WAKE_BEFORE_SCHEDULE, ptr as usize);
             let runnable = Runnable::new_unchecked(ptr as *const Self);
             (this.schedule_fn)(runnable, this.tag.clone());
         }
